@@ -93,6 +93,11 @@ func (c *Ctx) cmpTerm(rule, construct string, pos token.Pos, got *Term, want, ok
 		c.undecided(rule, construct, pos, msg)
 		return false
 	}
+	if got.Op == "const" && !strings.HasPrefix(want, "const[") && strings.ContainsAny(want, "(") {
+		// a value that has to carry data of the input is a constant
+		c.bad(rule, construct, pos, msg+" (a constant where a value derived from the input is required)")
+		return false
+	}
 	if op := opaqueParts(got, vocabOf(append(extraVocab, want)...)); len(op) > 0 {
 		c.undecided(rule, construct, pos, msg+" (outside the rule's vocabulary: "+strings.Join(op, ", ")+")")
 		return false
@@ -407,6 +412,12 @@ func termDist(a, b *Term) int {
 			}
 		}
 		if d < best {
+			best = d
+		}
+	}
+	// the same two operands in the other order (canonical ordering of a commutative operator hides "a-b" vs "b+a")
+	if a.Op == "binop" && b.Op == "binop" && len(a.Args) == 2 && len(b.Args) == 2 && a.Name != b.Name {
+		if d := 1 + termDist(a.Args[0], b.Args[1]) + termDist(a.Args[1], b.Args[0]); d < best {
 			best = d
 		}
 	}
